@@ -3,7 +3,8 @@
 
    A cell is a record [k, c, s, r]:  k \in {"g","sp","nl"} (visible glyph, non-newline whitespace,
    newline), c the character (opaque), s the sequence of SGR parameter strings in front of it,
-   r whether it is followed by the reset ESC[0m.   Text = Seq(Cell).
+   r whether it is followed by the reset ESC[0m.   Text = Seq(Cell).  A line break may carry styling
+   like any other character; what counts of it is that it is a line break (kind "nl").
 
    Two layers:
      *Requirements*  (WrapOK, DumbWrapOK, PadOK, IndentOK, SnipOK, SetLengthOK, CenterOK, ApplyOK):
@@ -34,6 +35,10 @@ Lines(t) == FoldLeft(LAMBDA acc, c : IF IsNl(c) THEN Append(acc, <<>>)
 (* sequence of lines -> text *)
 Join(ls) == IF ls = <<>> THEN <<>>
             ELSE FoldLeft(LAMBDA acc, ln : acc \o <<NlCell>> \o ln, ls[1], Tail(ls))
+(* the same with the line breaks of an original text (its i-th line break between line i and i+1) *)
+Nls(t) == SelectSeq(t, IsNl)
+JoinWith(ls, nls) == IF ls = <<>> THEN <<>>
+                     ELSE FoldLeft(LAMBDA acc, i : acc \o <<nls[i - 1]>> \o ls[i], ls[1], [i \in 1..(Len(ls) - 1) |-> i + 1])
 Spaces(n) == [i \in 1..n |-> SpCell]
 IsPrefixOf(p, t) == Len(p) <= Len(t) /\ p = SubSeq(t, 1, Len(p))
 
@@ -155,7 +160,7 @@ WrapAlg(in, w) ==
 
 DumbWrapAlg(in, w) ==
     LET st == FoldLeft(LAMBDA acc, c :
-                 IF IsNl(c) THEN [out |-> Append(acc.out, c), n |-> 0]
+                 IF IsNl(c) THEN [out |-> Append(acc.out, NlCell), n |-> 0]       \* a line break is written bare, whatever styling it came with
                  ELSE IF acc.n = w THEN [out |-> acc.out \o <<NlCell, c>>, n |-> 1]
                  ELSE [out |-> Append(acc.out, c), n |-> acc.n + 1],
                [out |-> <<>>, n |-> 0], in)
@@ -163,13 +168,13 @@ DumbWrapAlg(in, w) ==
 
 PadAlg(in, n) ==
     LET st == FoldLeft(LAMBDA acc, c :
-                 IF IsNl(c) THEN [out |-> acc.out \o Spaces(MaxOf(0, n - acc.n)) \o <<c>>, n |-> 0]
+                 IF IsNl(c) THEN [out |-> acc.out \o Spaces(MaxOf(0, n - acc.n)) \o <<NlCell>>, n |-> 0]
                  ELSE [out |-> Append(acc.out, c), n |-> acc.n + 1],
                [out |-> <<>>, n |-> 0], in)
     IN st.out \o Spaces(MaxOf(0, n - st.n))
 
 IndentAlg(in, prefix, first) ==
-    FoldLeft(LAMBDA acc, c : IF IsNl(c) THEN acc \o <<c>> \o prefix ELSE Append(acc, c),
+    FoldLeft(LAMBDA acc, c : IF IsNl(c) THEN acc \o <<NlCell>> \o prefix ELSE Append(acc, c),
              IF first THEN prefix ELSE <<>>, in)
 
 OnlyWs(ln) == \A i \in 1..Len(ln) : ~IsVis(ln[i])
@@ -183,7 +188,7 @@ SnipAlg(in, w, h, ell) ==
                 ELSE 0
         cut == cut0 \/ keep < hh
         kept == [i \in 1..keep |-> IF i = keep /\ Len(ls[i]) = w /\ cut THEN Front(ls[i]) ELSE ls[i]]
-    IN Join(kept) \o (IF cut THEN <<ell>> ELSE <<>>)
+    IN JoinWith(kept, Nls(in)) \o (IF cut THEN <<ell>> ELSE <<>>)      \* Snip cuts the text as it is: line breaks keep their styling
 
 (* CenterVertically on line sequences (Height("") = 1: pre/suf always have at least one line) *)
 CenterAlgPinned(pre, cen, suf, h) ==      \* as on the pinned tree: "" prefix still contributes a line
